@@ -614,6 +614,8 @@ impl SortedWritesTable {
 
     /// Flush all pending removals, in parallel.
     fn parallel_delete(&mut self) -> bool {
+        #[cfg(egglog_verif)]
+        crate::verif::count(crate::verif::Path::table_parallel_delete);
         let shard_data = self.hash.shard_data();
         let pending_removals = &self.pending_state.pending_removals;
         let data = &self.data.data;
@@ -714,6 +716,8 @@ impl SortedWritesTable {
     }
 
     fn serial_insert(&mut self, exec_state: &mut ExecutionState) -> bool {
+        #[cfg(egglog_verif)]
+        crate::verif::count(crate::verif::Path::table_serial_insert);
         let mut changed = false;
         let n_keys = self.n_keys;
         let mut scratch = with_pool_set(|ps| ps.get::<Vec<Value>>());
@@ -836,6 +840,8 @@ impl SortedWritesTable {
         exec_state: &ExecutionState,
         checker: C,
     ) -> bool {
+        #[cfg(egglog_verif)]
+        crate::verif::count(crate::verif::Path::table_parallel_insert);
         const BATCH_SIZE: usize = 1 << 18;
         // Parallel insert uses one giant parallel foreach. We have updates
         // pre-sharded, and one logical thread can process updates for each
@@ -1048,7 +1054,11 @@ impl SortedWritesTable {
             return;
         }
 
+        #[cfg(egglog_verif)]
+        crate::verif::count(crate::verif::Path::table_rehash);
         if parallelize_table_op(self.data.data.len()) {
+            #[cfg(egglog_verif)]
+            crate::verif::count(crate::verif::Path::table_parallel_rehash);
             self.parallel_rehash();
         } else {
             self.rehash();
